@@ -72,7 +72,26 @@ FanTopC == Cell("fan_top", << I("kid_c", <<0, 0>>, FALSE, -1), I("kid_a", <<0, 2
                              I("kid_b", <<60, 0>>, FALSE, 180) >>, <<>>)
 Fanout == { Lib("Nano", << FanTopC, KidC("kid_a", 1), KidC("kid_b", 2), KidC("kid_c", 1), KidC("kid_d", 2) >>),
             Lib("Nano", << KidC("kid_d", 2), KidC("kid_b", 2), FanTopC, KidC("kid_a", 1), KidC("kid_c", 1) >>) }
-Libs == OneShape \cup UnitsCases \cup Multi \cup Hier \cup Fanout
+\* Random libraries (NDeep of them, TLC's RandomElement, reproducible under -seed): four cells in a random listing order,
+\* each with a random polygon / rectangle / path (disjoint by construction: separate layers or far apart), instances
+\* of the cells below in random orientations (incl. "no angle"), random units
+CONSTANT NDeep
+PolySeq == LET RECURSIVE F(_) F(T) == IF T = {} THEN <<>> ELSE LET x == CHOOSE y \in T : TRUE IN <<x>> \o F(T \ {x}) IN F(PolyVariants)
+RectSeq == LET RECURSIVE F(_) F(T) == IF T = {} THEN <<>> ELSE LET x == CHOOSE y \in T : TRUE IN <<x>> \o F(T \ {x}) IN F(RectVariants)
+PathSeq == LET RECURSIVE F(_) F(T) == IF T = {} THEN <<>> ELSE LET x == CHOOSE y \in T : TRUE IN <<x>> \o F(T \ {x}) IN F(PathVariants)
+Shift(p, dx) == [k \in 1..Len(p) |-> <<p[k][1] + dx, p[k][2]>>]
+RandCell(n, kids) ==
+  LET pg == PolySeq[RandomElement(1..Len(PolySeq))]  rc == RectSeq[RandomElement(1..Len(RectSeq))]  pa == PathSeq[RandomElement(1..Len(PathSeq))]
+      w == RandomElement({0, 2, 7})
+  IN Cell(n, [k \in 1..Len(kids) |-> LET o == RandomElement(Orient) IN I(kids[k], <<RandomElement(-20..20), RandomElement(-20..20)>>, o[1], o[2])],
+          << E(1, "Drawing", "polygon", pg, 0, RandomElement({"", "n1", "VDD"})), E(2, "Drawing", "rect", rc, 0, RandomElement({"", "x"})),
+             E(1, "Pin", "path", Shift(pa, 100), w, RandomElement({"", "pn"})), E(2, "Pin", "polygon", Shift(pg, 200), 0, "") >>)
+Perms4 == { p \in [1..4 -> 1..4] : \A i, j \in 1..4 : p[i] = p[j] => i = j }
+DeepRaw(i) == LET pm == RandomElement(Perms4)
+                  cs == << RandCell("d_top", <<"d_mid", "d_low", "d_mid">>), RandCell("d_mid", <<"d_low", "d_leaf">>), RandCell("d_low", <<"d_leaf">>), RandCell("d_leaf", <<>>) >>
+              IN Lib(RandomElement({"Micro", "Nano", "Angstrom"}), [k \in 1..4 |-> cs[pm[k]]])
+DeepLibs == { DeepRaw(i) : i \in 1..NDeep }
+Libs == OneShape \cup UnitsCases \cup Multi \cup Hier \cup Fanout \cup DeepLibs
 Init == c \in Libs
 Next == UNCHANGED c
 Spec == Init /\ [][Next]_c
